@@ -556,4 +556,5 @@ def controls(repo):
             return n
         substitute(fn, pred, make, limit=1, expect=1)
     out.append(('joins-axes-swapped', repo.variant({'geodepy/survey.py': replace_in_function(src, 'joins', swap)}), 'joins'))
+    out.append(('phase-default-co2', text_variant(repo, 'geodepy/survey.py', 'def phase_refractivity(LAMDA, TC, P, PV, XC=420):', 'def phase_refractivity(LAMDA, TC, P, PV, XC=450):'), 'defaults'))
     return out
